@@ -238,14 +238,14 @@ class Extractor:
             return self.comb(a[0])
         if cal == 'nom::combinator::map_res':
             self.checks.append((self.cur, 'map_res', a[1]))
-            return ('check', self.comb(a[0]), 'map_res', a[1])
+            return ('check', self.comb(a[0]), 'map_res', a[1], callee_of(a[0]) if a[0].get('k') == 'Call' else None)
         if cal == 'nom::combinator::verify':
             inner = self.comb(a[0])
             if inner == ('class', 'any'):
                 name = self.class_name(a[1])
                 return ('class', name)
             self.checks.append((self.cur, 'verify', a[1]))
-            return ('check', inner, 'verify', a[1])
+            return ('check', inner, 'verify', a[1], callee_of(a[0]) if a[0].get('k') == 'Call' else None)
         if cal in ('nom::bytes::complete::tag', 'nom::bytes::streaming::tag'):
             v = hirq.const_eval(self.facts, a[0])
             if isinstance(v, str):
@@ -542,8 +542,9 @@ def language(facts, g, lookup, rec, classmap, depth=0, env=None):
             return set()
         # a test that does not look at what was parsed (only at values fixed earlier in the sequence) is decided here ...
         v = closure_verdict(facts, node, g[2], env, ('param', '#parsed'))
-        # ... and so is a test that only the empty repetition can reach: it sees the one value an empty `many0` yields
-        if v is None and inner == {()} and _unbound(g[1])[0] == 'star':
+        # ... and so is a test that only the empty repetition can reach: it sees the one value an empty `many0` yields, the empty
+        # vector (many0 only: a fold_many0 yields its initial accumulator, whatever that is)
+        if v is None and inner == {()} and _unbound(g[1])[0] == 'star' and len(g) > 4 and g[4] == 'nom::multi::many0':
             v = closure_verdict(facts, node, g[2], env, ('vec', ()))
         if v is True:
             return inner
